@@ -12,7 +12,7 @@ contract(M + "Dependencies.validate_schema_dependency",
          calls={"dependency": ECALL}, props=["C01", "C10", "C08"])
 
 contract(M + "Required.from_element",
-         requires="is_obj(element) and (attr_absent(element,'required') or is_np(element.required) or is_none(element.required) or ("
+         requires="(is_obj(element) or is_cls(element)) and (attr_absent(element,'required') or is_np(element.required) or is_none(element.required) or ("
                   + STRLIST.format(x="element.required") + ")) and (attr_absent(element,'properties') or is_np(element.properties) "
                   "or is_none(element.properties) or (isinstance(element.properties, _PropertyDict) and "
                   + STRLIST.format(x="element.properties.required") + "))",
